@@ -57,6 +57,7 @@ def tyParamL : Ty → List Bytes
   | .like b n => if b.isAny ∧ n.isEmpty then [] else [tyKey b, strMark ++ n]
   | .callable h ts hr r hb b => [if h then tupKeyOf ts else undefKey, if hr then tyKey r else undefKey, if hb then tyKey b else undefKey]
   | .struct _ => []      -- (a Struct's parameter is not a list of framed keys: `structTail`)
+  | .init h t => if h then [tyKey t] else []
   | .runtime rt n p =>
       if (rt.isEmpty ∧ n.isEmpty) ∧ p.isNone then []
       else (strMark ++ rt) :: ((if n.isEmpty ∧ p.isNone then [] else [strMark ++ n]) ++ (match p with | none => [] | some p => [rxTyKey p]))
@@ -148,6 +149,7 @@ theorem tyKey_shape (t : Ty) (hs : t.isStruct = false := by rfl) :
     simp only [tyKey, tyParamL, Ty.name, ekStr]
     split <;> simp [flat]
   | callable h ts hr r hb b => cases h <;> cases hr <;> cases hb <;> simp [tyKey, tyParamL, Ty.name, ekStr, flat, tupKeyOf]
+  | init h t => cases h <;> simp [tyKey, tyParamL, Ty.name, ekStr, flat]
   | runtime rt n p =>
     simp only [tyKey, tyParamL, Ty.name, ekStr]
     split
@@ -158,7 +160,7 @@ theorem tyKey_shape (t : Ty) (hs : t.isStruct = false := by rfl) :
 
 inductive NameTag where
   | any | undef | str | int | flt | enum | arr | var | tup | opt | typ
-  | nul (k : NulK) | bool | coll | un (k : UnK) | rx | pattern | tref | semver | hash | like | callable | runtime | struct
+  | nul (k : NulK) | bool | coll | un (k : UnK) | rx | pattern | tref | semver | hash | like | callable | runtime | struct | init
   deriving DecidableEq
 
 def nameTag : Ty → NameTag
@@ -167,7 +169,7 @@ def nameTag : Ty → NameTag
   | .nul k => .nul k | .bool _ => .bool | .coll _ _ => .coll | .un k _ => .un k
   | .strSize _ _ => .str | .strVal _ => .str | .rx _ => .rx | .pattern _ => .pattern | .tref _ => .tref
   | .semverT _ _ => .semver | .hash _ _ _ _ => .hash | .like _ _ => .like | .callable _ _ _ _ _ _ => .callable | .runtime _ _ _ => .runtime
-  | .struct _ => .struct
+  | .struct _ => .struct | .init _ _ => .init
 
 def tagName : NameTag → Bytes
   | .any => Ty.any.name | .undef => Ty.undef.name | .str => Ty.str.name | .int => (Ty.int 0 0).name | .flt => (Ty.flt 0 0).name
@@ -177,6 +179,7 @@ def tagName : NameTag → Bytes
   | .tref => (Ty.tref []).name | .semver => (Ty.semverT [] []).name
   | .hash => (Ty.hash .any .any 0 0).name | .like => (Ty.like .any []).name | .callable => (Ty.callable false [] false .any false .any).name
   | .runtime => (Ty.runtime [] [] none).name | .struct => (Ty.struct []).name
+  | .init => (Ty.init false .any).name
 
 theorem name_tag (t : Ty) : t.name = tagName (nameTag t) := by
   cases t with
@@ -186,7 +189,7 @@ theorem name_tag (t : Ty) : t.name = tagName (nameTag t) := by
 
 def allTags : List NameTag :=
   [.any, .undef, .str, .int, .flt, .enum, .arr, .var, .tup, .opt, .typ, .bool, .coll, .rx, .pattern, .tref, .semver,
-   .hash, .like, .callable, .runtime, .struct,
+   .hash, .like, .callable, .runtime, .struct, .init,
    .nul .dflt, .nul .unit, .nul .scalar, .nul .scalarData, .nul .numeric, .nul .binary, .nul .data, .nul .richData, .nul .semverRange,
    .un .notUndef, .un .sensitive, .un .iterable, .un .iterator]
 
@@ -1023,6 +1026,14 @@ theorem tyKey_iff : ∀ a b : Ty, TyWF a = true → TyWF b = true → (tyKey a =
             · rintro ⟨hl, h⟩
               rw [hl, (tyKey_iff_S (e :: es) (f :: fs) ha.1 hb.1 hl).mpr h]
       | _ => rw [eq_comm, tyKey_eq_iff _ _ (by rfl), name_eq_iff]; simp [nameTag, tyEq]
+  | .init h t, b, ha, hb => by
+      rw [tyKey_eq_iff _ _ (by rfl), name_eq_iff]
+      cases b with
+      | init h' u =>
+        cases h <;> cases h' <;> simp [nameTag, tyEq, tyParamL]
+        simp only [TyWF, Bool.not_true, Bool.false_or] at ha hb
+        exact tyKey_iff t u ha hb
+      | _ => simp [nameTag, tyEq]
 theorem tyKey_iff_S : ∀ es fs : List (Bytes × Bool × Ty), TyWFS es = true → TyWFS fs = true → es.length = fs.length →
     (tyKeyS es = tyKeyS fs ↔ tyEqS es fs = true)
   | [], [], _, _, _ => by simp [tyKeyS, tyEqS]
